@@ -57,10 +57,16 @@ pub fn run_child(args: &[String], timeout_s: u64) -> (Option<i32>, String) {
         .args(args)
         .stdin(Stdio::null())
         .stdout(Stdio::piped())
-        .stderr(Stdio::null())
+        .stderr(Stdio::piped())
         .spawn()
         .expect("spawn child");
     let mut out = child.stdout.take().unwrap();
+    let mut err = child.stderr.take().unwrap();
+    let errt = std::thread::spawn(move || {
+        let mut e = String::new();
+        let _ = err.read_to_string(&mut e);
+        e
+    });
     let t0 = std::time::Instant::now();
     let mut buf = String::new();
     // children are short; read to end (they exit on their own), but guard with a watchdog
@@ -77,6 +83,11 @@ pub fn run_child(args: &[String], timeout_s: u64) -> (Option<i32>, String) {
     let _ = out.read_to_string(&mut buf);
     let st = child.wait().ok();
     let _ = wd.join();
+    let e = errt.join().unwrap_or_default();
+    if !e.is_empty() {
+        buf.push_str("\nSTDERR: ");
+        buf.push_str(&e.chars().take(600).collect::<String>());
+    }
     (st.and_then(|s| s.code()), buf)
 }
 
@@ -128,10 +139,13 @@ pub fn child_main(args: &[String]) -> i32 {
             let statm = std::fs::read_to_string("/proc/self/statm").unwrap();
             let vm_pages: u64 = statm.split_whitespace().next().unwrap().parse().unwrap();
             let limit = vm_pages * 4096 + headroom * 1024;
-            let rl = libc::rlimit { rlim_cur: limit, rlim_max: limit };
-            unsafe { libc::setrlimit(libc::RLIMIT_AS, &rl) };
+            // everything the harness itself needs is allocated before the limit is lowered
             let base_deleted = deleted_mappings();
-            let mut held = Vec::new();
+            let mut held = Vec::with_capacity(rounds + 8);
+            let mut old = libc::rlimit { rlim_cur: 0, rlim_max: 0 };
+            unsafe { libc::getrlimit(libc::RLIMIT_AS, &mut old) };
+            let rl = libc::rlimit { rlim_cur: limit, rlim_max: old.rlim_max };
+            unsafe { libc::setrlimit(libc::RLIMIT_AS, &rl) };
             let mut errs = 0usize;
             let mut oks = 0usize;
             let mut growth_after_fail = 0isize;
@@ -147,16 +161,18 @@ pub fn child_main(args: &[String]) -> i32 {
                             first_fail_at = Some(oks);
                         }
                         errs += 1;
-                        // repeated failures must not grow the mapping count
-                        let before = deleted_mappings();
+                        // repeated failures (still under the limit) must not grow the mapping count
                         for _ in 0..20 {
                             let _ = rustradio::circular_buffer::Buffer::<u32>::new(size);
                         }
-                        growth_after_fail += deleted_mappings() as isize - before as isize;
+                        // back to the old soft limit before the harness allocates (reading /proc)
+                        unsafe { libc::setrlimit(libc::RLIMIT_AS, &old) };
+                        growth_after_fail += deleted_mappings() as isize - (base_deleted + 2 * held.len()) as isize;
                         break;
                     }
                 }
             }
+            unsafe { libc::setrlimit(libc::RLIMIT_AS, &old) };
             let held_n = held.len();
             let expected_maps = base_deleted + 2 * held_n;
             let maps_ok = deleted_mappings() == expected_maps;
